@@ -2,7 +2,7 @@
     [op_spec] is the boolean checker [shard_ok], not a comparison with one
     expected output. *)
 From Coq Require Import ZArith List Bool String.
-From Low Require Import Lib.Bits Lib.BitSeq Lib.Lex Lib.Bytes Lib.Val Model.Sigbits Spec.SigbitsSpec.
+From Low Require Import Lib.Bits Lib.BitSeq Lib.Lex Lib.Bytes Lib.Val Model.Sigbits Spec.SigbitsSpec Spec.ShardRouteSpec.
 Import ListNotations.
 Open Scope string_scope.
 Open Scope Z_scope.
@@ -29,6 +29,30 @@ Definition ops_C17 : list opdef := [
                match as_zs L, as_zs B with
                | Some L, Some B => shard_ok keys ms L B
                | _, _ => false
+               end
+           | _, _, _ => false end
+       | _ => false end |};
+  (* the returned prefixes used as a routing table: observed = [L, B, R], R[i] = the shard an
+     upper-bound search over the prefixes finds for keys[i]; accepted when (L,B) is a valid
+     sharding and every key is sent to the shard that holds it *)
+  {| op_name := "sigbits.ShardByPrefix/route";
+     op_run := fun a => match a with
+       | [keys; ms] => match as_zss keys, as_z ms with
+           | Some keys, Some ms =>
+               if c17_dom keys ms then
+                 match ShardByPrefix keys ms with
+                 | Some (L, B) => VL [vzs L; vzs B; vzs (map (route (shard_prefixes keys L B)) keys)]
+                 | None => VPanic
+                 end
+               else VBad
+           | _, _ => VBad end
+       | _ => VBad end;
+     op_spec := fun a obs => match a with
+       | [keys; ms] => match as_zss keys, as_z ms, obs with
+           | Some keys, Some ms, VL [L; B; R] =>
+               match as_zs L, as_zs B, as_zs R with
+               | Some L, Some B, Some R => shard_ok keys ms L B && route_okb (zlen keys) B R
+               | _, _, _ => false
                end
            | _, _, _ => false end
        | _ => false end |}
